@@ -143,6 +143,11 @@ def prop_ledger(sh, case):
         _OTHER.append(ledgers.connect(ledgers.SAMPLE))
         _OTHER.append(harness.engine(_OTHER[0], harness.parsed('SELECT account, open.date, close.date FROM #accounts'))[2])
     conn = ledgers.connect_entries(entries, options)
+    # period reports run first on the same connection: the tables a later statement reads are those of the full ledger
+    for warm in ('SELECT count(*) AS n FROM OPEN ON 2019-03-01 CLOSE ON 2020-03-01 CLEAR',
+                 'PRINT FROM OPEN ON 2019-03-01 CLOSE ON 2020-03-01 CLEAR',
+                 'SELECT count(*) AS n FROM CLOSE ON 2019-06-01'):
+        harness.engine(conn, harness.parsed(warm))
     again = harness.engine(_OTHER[0], harness.parsed('SELECT account, open.date, close.date FROM #accounts'))
     if again[0] != 'ok' or again[2] != _OTHER[1]:
         fails.append(('accounts-of-another-connection-changed', f'{again[2]!r} was {_OTHER[1]!r}'))
